@@ -722,6 +722,8 @@ def check_termination(cx, cg, fns, rep):
 
 def structural_descent_loop(node, cx=None):
     """`while let Variant(x) = v { v = x.field[.as_ref()/&..]; }`: every iteration replaces v by a strict sub-term of itself"""
+    if descent_loop_arms(node) is not None:
+        return True
     if node.get('k') != 'While' or not isinstance(node.get('cond'), dict) or node['cond'].get('k') != 'Let':
         return False
     c = node['cond']
@@ -749,6 +751,50 @@ def structural_descent_loop(node, cx=None):
             or (r.get('k') == 'Unary' and r.get('op') == '*'):
         r = r.get('expr') or r.get('recv')
     return r.get('k') == 'Field' and r['base'].get('k') == 'Path' and r['base']['path']['s'] == x
+
+
+def descent_loop_arms(node):
+    """`loop { v = match v { P(x) => <a field of x>, .., _ => return v | break v }; }` -> (v, [(pattern path | '_', ('descend', field) |
+    ('exit', 'return' | 'break'))]) or None.  Every iteration replaces v by a strict part of itself or leaves the loop with v."""
+    if node.get('k') != 'Loop':
+        return None
+    st = node['body'].get('stmts', [])
+    if len(st) != 1 or st[0].get('k') != 'Expr' or st[0]['expr'].get('k') != 'Assign':
+        return None
+    a = st[0]['expr']
+    if a['l_'].get('k') != 'Path' or len(a['l_']['path']['segs']) != 1:
+        return None
+    v = a['l_']['path']['s']
+    m = a['r_']
+    if m.get('k') != 'Match':
+        return None
+    sc = strip_refs(m['expr'])
+    if sc.get('k') != 'Path' or sc['path']['s'] != v:
+        return None
+    out = []
+    for arm in m['arms']:
+        if arm.get('guard'):
+            return None
+        pt = arm['pat']
+        b = arm['body']
+        while b.get('k') == 'Block' and len((b.get('block') or b).get('stmts') or []) == 1 and (b.get('block') or b)['stmts'][0].get('k') == 'Expr':
+            b = (b.get('block') or b)['stmts'][0]['expr']
+        if b.get('k') in ('Return', 'Break') and isinstance(b.get('expr'), dict) and strip_refs(b['expr']).get('k') == 'Path' and strip_refs(b['expr'])['path']['s'] == v:
+            out.append((pat_s(pt).split('(')[0], ('exit', b['k'].lower())))
+            continue
+        if pt.get('k') != 'TupleStruct' or len(pt.get('elems', [])) != 1 or pt['elems'][0].get('k') != 'Ident':
+            return None
+        x = pt['elems'][0]['name']
+        r = b
+        while r.get('k') in ('Ref', 'Paren') or (r.get('k') == 'MethodCall' and r.get('method') in ('as_ref', 'as_mut', 'deref') and not r['args']) \
+                or (r.get('k') == 'Unary' and r.get('op') == '*'):
+            r = r.get('expr') or r.get('recv')
+        if not (r.get('k') == 'Field' and r['base'].get('k') == 'Path' and r['base']['path']['s'] == x):
+            return None
+        out.append((pt['path']['s'], ('descend', r['member'])))
+    if not any(k[0] == 'exit' for _, k in out):
+        return None
+    return v, out
 
 
 def _idents_in(node):
